@@ -214,6 +214,19 @@ Theorem C04_concurrent_tunnels_independent :
 Proof. exact (conj run2_proj (conj concurrent_tunnels_ideal tunnels_do_not_wait)). Qed.
 Print Assumptions C04_concurrent_tunnels_independent.
 
+(* "For any timing of writes": the model has no clock, and the code has none
+   either inside the tunnel — connect() and handleConnectRequest leave no
+   deadline armed on the tunnel's connections (fact from gen_c04: every
+   Set*Deadline with a time is cleared again for the side it armed).  With one
+   left armed, a write after it expires fails: bytes dropped, an end-of-stream
+   nobody sent.  (The client connection's idle deadline set by handleLoop is the
+   stated assumption "the tunnel is younger than the idle timeout".) *)
+Theorem C04_no_time_dependent_transition :
+  tunnel_has_timed_transition tunnel_conns_no_armed_deadline = false /\
+  tunnel_has_timed_transition false = true.
+Proof. exact (conj no_timed_transition armed_deadline_is_timed). Qed.
+Print Assumptions C04_no_time_dependent_transition.
+
 (* the probe's oracle: a write into the dead tunnel eventually fails and the
    canary origin is never contacted *)
 Theorem C04_probe_oracle_is_the_property : forall w q,
